@@ -4,6 +4,7 @@ import Pangaea.Drv.C10
 import Pangaea.Drv.C15
 import Pangaea.Drv.C04
 import Pangaea.Drv.C02
+import Pangaea.Drv.C16
 
 def dispatch (line : String) : String :=
   let toks := (line.trimAscii.toString.splitOn " ").filter (· ≠ "")
@@ -14,6 +15,7 @@ def dispatch (line : String) : String :=
     | "C15" :: rest => Pangaea.Drv.C15.handle rest
     | "C04" :: rest => Pangaea.Drv.C04.handle rest
     | "C02" :: rest => Pangaea.Drv.C02.handle rest
+    | "C16" :: rest => Pangaea.Drv.C16.handle rest
     | _ => ("bad-op", "bad-op")
   r.1 ++ "\t" ++ r.2
 
